@@ -30,6 +30,23 @@ type AUser struct {
 	Friends   []*AUser  `gorm:"many2many:a_friends;joinForeignKey:UserID;joinReferences:FriendID"`
 	Notes     []ANote   `gorm:"polymorphic:Owner"`
 	Badge     *ABadge   `gorm:"polymorphic:Owner"`
+	Nick      string    // not a key: referenced by AGift.UserNick (references: on a non-primary column; duplicates and "" occur)
+	Gifts     []AGift   `gorm:"foreignKey:UserNick;references:Nick"`
+	Extra     AExtra    `gorm:"embedded;embeddedPrefix:extra_"`
+}
+
+// AExtra is embedded in AUser and carries a relation of its own (preloadable as
+// "Mentor" and as "Extra.Mentor").
+type AExtra struct {
+	MentorID *uint
+	Mentor   *AUser `gorm:"foreignKey:MentorID"`
+}
+
+type AGift struct {
+	ID       uint `gorm:"primaryKey;autoIncrement:false"`
+	Tag      int
+	UserNick *string
+	Giver    *AUser `gorm:"foreignKey:UserNick;references:Nick"`
 }
 
 type ACompany struct {
@@ -113,7 +130,7 @@ type SUser struct {
 	Pets      []SPet    `gorm:"foreignKey:UserID"`
 	Langs     []*SLang  `gorm:"many2many:s_user_langs;joinForeignKey:UserID;joinReferences:LangID"`
 	Friends   []SUser   `gorm:"many2many:s_friends;joinForeignKey:UserID;joinReferences:FriendID"`
-	Notes     []*SNote  `gorm:"polymorphic:Owner"`
+	Notes     []*SNote  `gorm:"polymorphic:Owner;polymorphicValue:s_usr"`
 	Badge     SBadge    `gorm:"polymorphic:Owner"`
 }
 
@@ -148,7 +165,7 @@ type SToy struct {
 }
 
 type SLang struct {
-	ID        string `gorm:"primaryKey"`
+	ID        []byte `gorm:"primaryKey"`
 	Tag       int
 	DeletedAt gorm.DeletedAt
 }
@@ -169,9 +186,12 @@ type SBadge struct {
 	DeletedAt gorm.DeletedAt
 }
 
+// SUserLang is installed as the join model of SUser.Langs with SetupJoinTable:
+// a join table that soft-deletes its links.
 type SUserLang struct {
-	UserID string `gorm:"primaryKey"`
-	LangID string `gorm:"primaryKey"`
+	UserID    string `gorm:"primaryKey"`
+	LangID    []byte `gorm:"primaryKey"`
+	DeletedAt gorm.DeletedAt
 }
 
 func (SUserLang) TableName() string { return "s_user_langs" }
@@ -235,9 +255,12 @@ type CToy struct {
 	PetID *uint
 }
 
+// CodeT is a defined string type used as a key part.
+type CodeT string
+
 type CLang struct {
-	Org       int    `gorm:"primaryKey;autoIncrement:false"`
-	Code      string `gorm:"primaryKey"`
+	Org       int   `gorm:"primaryKey;autoIncrement:false"`
+	Code      CodeT `gorm:"primaryKey"`
 	Tag       int
 	DeletedAt gorm.DeletedAt
 }
@@ -246,7 +269,7 @@ type CUserLang struct {
 	UserOrg  int    `gorm:"primaryKey;autoIncrement:false"`
 	UserCode string `gorm:"primaryKey"`
 	LangOrg  int    `gorm:"primaryKey;autoIncrement:false"`
-	LangCode string `gorm:"primaryKey"`
+	LangCode CodeT  `gorm:"primaryKey"`
 }
 
 func (CUserLang) TableName() string { return "c_user_langs" }
@@ -347,6 +370,10 @@ type rel struct {
 
 	polyField, polyValue string
 
+	// embedded: the Go field lives inside this embedded struct field of the
+	// owner ("Extra"); the relation can be named "Mentor" or "Extra.Mentor"
+	embedded string
+
 	join       string // join-row model name
 	jOwn, jRel []string
 }
@@ -363,7 +390,8 @@ type fk struct {
 // polyRef describes a polymorphic owner reference for data generation.
 type polyRef struct {
 	idField, typeField string
-	owners             []string // model names; the type value is the owner's table name
+	owners             []string          // model names; the type value is the owner's table name ...
+	values             map[string]string // ... unless the owner's relation carries polymorphicValue
 }
 
 type model struct {
@@ -376,6 +404,7 @@ type model struct {
 	fks    []fk
 	poly   *polyRef
 	rels   []*rel
+	alt    []string // non-key columns that relations reference (`references:`): filled from the key alphabet, duplicates and "" allowed
 	// generation bounds
 	minRows, maxRows int
 }
@@ -398,6 +427,16 @@ type family struct {
 	// nested preload paths offered per root model
 	nested map[string][]string
 	ddl    []string // captured once per process
+	// setup runs on every fresh handle before anything else (SetupJoinTable)
+	setup func(db *gorm.DB) error
+}
+
+// path is the Go field path of the relation field inside the owner struct.
+func (r *rel) path() string {
+	if r.embedded != "" {
+		return r.embedded + "." + r.name
+	}
+	return r.name
 }
 
 func (f *family) m(name string) *model { return f.byName[name] }
@@ -454,8 +493,8 @@ func single(prefix string, types map[string]interface{}, keys string) *family {
 		}},
 		&model{name: p + "Toy", table: table("Toy"), typ: t("Toy"), pk: id, maxRows: 6, fks: []fk{{[]string{"PetID"}, p + "Pet", id}}},
 		&model{name: p + "Lang", table: table("Lang"), typ: t("Lang"), pk: id, soft: true, maxRows: 3},
-		&model{name: p + "Note", table: table("Note"), typ: t("Note"), pk: id, maxRows: 6, poly: &polyRef{"OwnerID", "OwnerType", []string{p + "User", p + "Company"}}},
-		&model{name: p + "Badge", table: table("Badge"), typ: t("Badge"), pk: id, soft: true, poly: &polyRef{"OwnerID", "OwnerType", []string{p + "User", p + "Company"}}},
+		&model{name: p + "Note", table: table("Note"), typ: t("Note"), pk: id, maxRows: 6, poly: &polyRef{idField: "OwnerID", typeField: "OwnerType", owners: []string{p + "User", p + "Company"}}},
+		&model{name: p + "Badge", table: table("Badge"), typ: t("Badge"), pk: id, soft: true, poly: &polyRef{idField: "OwnerID", typeField: "OwnerType", owners: []string{p + "User", p + "Company"}}},
 		&model{name: p + "UserLang", table: lower + "user_langs", typ: t("UserLang"), isJoin: true, pk: []string{"UserID", "LangID"}, maxRows: 7,
 			fks: []fk{{[]string{"UserID"}, p + "User", id}, {[]string{"LangID"}, p + "Lang", id}}},
 		&model{name: p + "Friend", table: lower + "friends", typ: t("Friend"), isJoin: true, pk: []string{"UserID", "FriendID"}, maxRows: 6,
@@ -464,6 +503,23 @@ func single(prefix string, types map[string]interface{}, keys string) *family {
 }
 
 func famA() *family {
+	f := famA0()
+	u := f.m("AUser")
+	u.alt = []string{"Nick"}
+	u.fks = append(u.fks, fk{[]string{"Extra.MentorID"}, "AUser", []string{"ID"}})
+	u.rels = append(u.rels,
+		&rel{name: "Gifts", kind: hasMany, target: "AGift", own: []string{"Nick"}, tgt: []string{"UserNick"}},
+		&rel{name: "Mentor", embedded: "Extra", kind: belongsTo, target: "AUser", own: []string{"Extra.MentorID"}, tgt: []string{"ID"}, self: true})
+	gift := &model{name: "AGift", table: "a_gifts", typ: reflect.TypeOf(AGift{}), pk: []string{"ID"}, maxRows: 6,
+		fks:  []fk{{[]string{"UserNick"}, "AUser", []string{"Nick"}}},
+		rels: []*rel{{name: "Giver", kind: belongsTo, target: "AUser", own: []string{"UserNick"}, tgt: []string{"Nick"}}}}
+	f.byName[gift.name] = gift
+	f.models = append(f.models, gift)
+	f.nested["AUser"] = append(f.nested["AUser"], "Gifts.Giver", "Mentor.Gifts", "Extra.Mentor.Pets", "Team.Extra.Mentor")
+	return f
+}
+
+func famA0() *family {
 	return single("A", map[string]interface{}{
 		"User": AUser{}, "Company": ACompany{}, "Profile": AProfile{}, "Pet": APet{}, "Toy": AToy{}, "Lang": ALang{},
 		"Note": ANote{}, "Badge": ABadge{}, "UserLang": AUserLang{}, "Friend": AFriend{},
@@ -471,6 +527,15 @@ func famA() *family {
 }
 
 func famS() *family {
+	f := famS0()
+	f.m("SUser").rel("Notes").polyValue = "s_usr"
+	f.m("SNote").poly.values = map[string]string{"SUser": "s_usr"}
+	f.m("SUserLang").soft = true
+	f.setup = func(db *gorm.DB) error { return db.SetupJoinTable(&SUser{}, "Langs", &SUserLang{}) }
+	return f
+}
+
+func famS0() *family {
 	return single("S", map[string]interface{}{
 		"User": SUser{}, "Company": SCompany{}, "Profile": SProfile{}, "Pet": SPet{}, "Toy": SToy{}, "Lang": SLang{},
 		"Note": SNote{}, "Badge": SBadge{}, "UserLang": SUserLang{}, "Friend": SFriend{},
